@@ -131,13 +131,17 @@ more("C04", "(eighth round) code that can name types of later-loaded packages is
 more("C08", "(eighth round) panic values of the runtime overlay have RuntimeError(); remaining deferred calls run after a resumed recovery.")
 more("C10", "(eighth round) the local symbol of a go:linkname directive is looked up among functions without a receiver.")
 more("C11", "(eighth round) every $array[…] element access adds the same operand's $offset.")
+more("C11", "(eighth round) a js tag takes the dot notation only when every character may be part of a JavaScript identifier.")
 more("C12", "(eighth round) the directive-import table is consulted with the import path.")
 more("C13", "(eighth round) nosync.Map reads its map with comma-ok only.")
 more("C18", "(eighth round) isStd answers true only from the located package's Goroot flag.")
+more("C18", "(eighth round) the --tags value is split at commas as well as white space in every command.")
 more("C15", "(eighth round) $ifaceKeyFor rejects unhashable dynamic types with a run-time error before calling keyFor.")
 more("C17", "(eighth round) a session prepares and compiles each program from the dependency closure of its root, without archives of earlier builds.")
 more("C06", "(eighth round) 64-bit integers convert to float32 through a sticky-bit helper (one rounding).")
 more("C06", "(eighth round) integer constants reach %f operands with all their digits.")
+more("C06", "(eighth round) every non-constant shift tests a count of signed type for negativity (32-bit templates through a throwing helper, the 64-bit helpers themselves).")
+more("C08", "(eighth round) a negative shift count raises a run-time error (C06.negative-shift).")
 more("C07", "(eighth round) value-receiver methods clone a struct/array receiver on entry when a may-modify analysis of the body holds; individually passed variadic arguments are cloned; the clone of a pointer-called value method is decided by the method's receiver type.")
 more("C03", "(eighth round) a goroutine taken off the run queue is run before the scheduling loop can be left.")
 more("C05", "(eighth round) object-naming helpers run only inside the CollectDCEDeps callback.")
